@@ -132,6 +132,11 @@ def recon(name, fresh=False):
     if not fresh:
         if name not in _POOL:
             _POOL[name] = recon(name, fresh=True)
+        # schemes live among other schemes: instances of the same classes with other parameters are created afterwards
+        try:
+            xnum.extrapolk(-0.123), xnum.muscl(xnum.superbee), xnum.muscl(xnum.minmod), xnum.extrapol2(), xnum.extrapol2dk(0.777)
+        except Exception:
+            pass
         return _POOL[name]
     if name == "extrapol1":
         return xnum.extrapol1()
